@@ -6,6 +6,7 @@ from fractions import Fraction as Fr
 from hypothesis import strategies as st
 
 from frame.geometry.geometry import Shape
+from frame.netlist.netlist import Netlist
 from gen import design as D
 from gen import lattice as L
 from gen.stog import stog_rects
@@ -70,7 +71,8 @@ def run_spectral(c):
         raise RuntimeError("generator produced a rejected netlist: %s: %s\n%s" % (type(e).__name__, e, c))
     before = {m.name: (m.area(), dict(m.area_regions), rect_state(m), m.is_soft, m.is_hard, m.is_fixed) for m in sp.modules}
     pins0 = {m.name: (m.center.x, m.center.y) for m in sp.modules if m.is_terminal}
-    nets0 = [([b.name for b in e.modules], e.weight) for e in sp.edges]
+    # (the nets as a plain Netlist reads them from the same document: the tool may not rewrite them while it is being set up either)
+    nets0 = [([b.name for b in e.modules], e.weight) for e in Netlist(build_doc(c)).edges]
     trials = int(c["trials"])
     random.seed(int(c["seed"]))
     what = "spectral_layout(%rx%r, trials=%d, seed=%d)" % (W, H, trials, c["seed"])
@@ -127,7 +129,7 @@ def run_spectral(c):
         if 2 * radius > 0.3 * min(W, H):
             big = True
     if [([b.name for b in e.modules], e.weight) for e in sp.edges] != nets0:
-        raise Violation("%s: nets changed" % what, "nets-changed")
+        raise Violation("%s: nets changed: %s, the document says %s" % (what, [([b.name for b in e.modules], e.weight) for e in sp.edges], nets0), "nets-changed")
     # the netlist's own list of all rectangles is another way to the same positions
     try:
         flat = sorted((r.center.x, r.center.y, r.shape.w, r.shape.h) for r in sp.rectangles)
